@@ -1,5 +1,6 @@
 import AL.Model.ParseWf
 import AL.Model.Rules
+import AL.Model.RuleExpr
 import Driver.Util
 /-
   `parsewf <numbers> <node>`: the document node as an S-expression
@@ -176,6 +177,36 @@ def handleLint : List String → String
       | _ => none
     match ns, (readSExp node) >>= nodeOf with
     | some ns, some n => ";".intercalate ((AL.Rules.lint (cfgOf ns) n).map diagS)
+    | _, _ => "bad-op"
+  | _ => "bad-op"
+
+end Driver.ParseWfD
+
+namespace Driver.ParseWfD
+open AL.Yaml AL.Ast AL.PW Driver
+
+def insertStr (s : String) : List String → List String
+  | [] => [s]
+  | x :: rest => if s < x then s :: x :: rest else x :: insertStr s rest
+
+/-- `exprwf <numbers> <node>`: rule_expression.go over the parser model's AST; the sorted multiset of classified diagnostics -/
+def handleExpr : List String → String
+  | [nums, node] =>
+    let ns : Option (List Num) := match readSExp nums with
+      | some (.atom "E") => some []
+      | some (.list l) => l.mapM numOf
+      | _ => none
+    match ns, (readSExp node) >>= nodeOf with
+    | some ns, some n =>
+      let cfg := cfgOf ns
+      let isNum : String → Bool := fun s => match ns.find? (·.value = s) with
+        | some x => (match x.float with | .err => false | _ => true)
+        | none => false
+      let ds := AL.RuleExpr.rule cfg.lower isNum (parse cfg n).1
+      -- `lineBreakEscaper` (error.go) is applied to every message: compare after the same escaping
+      let esc (a : String) : String := (a.replace "\n" "\\n").replace "\r" "\\r"
+      let codes := ds.map fun d => d.code ++ "(" ++ ",".intercalate (d.args.map fun a => hexStr (esc a)) ++ ")"
+      ";".intercalate (codes.foldr insertStr [])
     | _, _ => "bad-op"
   | _ => "bad-op"
 
